@@ -1,7 +1,7 @@
 (* PropC01.v — property C01: line-based retrace returns exactly the recorded call stack.
    Statements only; proofs in MapperProofs.v (mapper = spec), CacheProofs.v (cache = spec),
    IsolationProofs.v / ParserFacts.v (lifting to files). *)
-From PG Require Import Base Mapping Spec Mapper CacheWriter CacheReader CacheStructDefs MappingProofs IsolationProofs MapperProofs ParserFacts CacheBytesProofs Domain WriterInv CacheProofs CacheLayout.
+From PG Require Import Base Mapping Spec Mapper CacheWriter CacheReader CacheStructDefs MappingProofs IsolationProofs MapperProofs ParserFacts CacheBytesProofs Domain WriterInv CacheProofs CacheLayout BridgeBlocks.
 
 (* mapper = specification, for every record list with non-empty original class names and
    positive end lines (both hold for what the parser yields from in-domain files) *)
@@ -52,6 +52,15 @@ Proof.
   rewrite (recs_isolation A (X ++ nl2 ++ B) nl1 H1), (recs_isolation X B nl2 H2), HX.
   rewrite (recs_isolation A B nl1 H1). reflexivity.
 Qed.
+
+(* the order of distinctly named class blocks is irrelevant *)
+Theorem C01_block_order_irrelevant : forall bs1 bs2,
+  bodies_class_free bs1 -> bodies_class_free bs2 -> NoDup (map b_obf bs1) -> Permutation.Permutation bs1 bs2 ->
+  (forall c, Sclass (unblocks bs1) c = Sclass (unblocks bs2) c) /\
+  (forall c m, Smethod (unblocks bs1) c m = Smethod (unblocks bs2) c m) /\
+  (forall c m line file, Sline (unblocks bs1) c m line file = Sline (unblocks bs2) c m line file) /\
+  (forall c m p, Sparams (unblocks bs1) c m p = Sparams (unblocks bs2) c m p).
+Proof. exact C01_block_order. Qed.
 
 Check C01_mapper : forall ix rs c m line file,
   wf_class_names rs = true -> wf_line_mappings rs = true ->
